@@ -198,7 +198,10 @@ VERUS = [dict(
         dict(name="limit_update_no_evict", item="update_cache_limit", find="state.evict_entries();", replace=""),
     ],
 )]
-KANI = []
+KANI = [dict(package="datafusion-execution", module="execution/cache_manager.rs", timeout=900, harnesses=[
+    dict(name="c40_file_metadata_entry_valid_iff_size_and_mtime_unchanged", complete=False, bound="sizes full u64; timestamps from a 4 s x 2 ns window (chrono calendar arithmetic)",
+         what="CachedFileMetadataEntry::is_valid_for on forged entries: valid <=> size and last_modified both unchanged"),
+])]
 TRUSTED = ["Verus 0.2026.09.13 + bundled Z3", "ASSUMED contract of LruQueue::{get,peek,put,pop,remove,clear} over a recency-ordered sequence view (prelude.rs); checked against the real implementation only by a bounded Kani harness",
            "CacheKey/CacheValue::size are pure functions of the value; clone returns an equal value; Eq on keys is spec equality", "Instant/Duration modelled as integers (total order)",
            "rewrites R4 (let-chain), R5 (log/debug_assert -> proved assert(false)), R6, R8 (hit counters dropped), R10 (lock elision for update_cache_limit), R13 (ttl closure -> assumed expiry_of)"]
